@@ -5,6 +5,8 @@ import Driver.Stream
 import Driver.Curve
 import Driver.Pwhash
 import Driver.Rand
+import Driver.Serde
+import Driver.TypeState
 /-
 Line-protocol driver.  One request per line:  `<id> <op> <arg>…` (byte strings
 in hex, `-` = empty).  One answer per line: `<id>\t<model answer>\t<spec answer>`
@@ -29,6 +31,12 @@ def handle (op : String) (args : List String) : Ans :=
   | some a => a
   | none =>
   match Rand.handle op args with
+  | some a => a
+  | none =>
+  match Serde.handle op args with
+  | some a => a
+  | none =>
+  match TypeState.handle op args with
   | some a => a
   | none => ("bad-op", "bad-op")
 
